@@ -47,14 +47,14 @@ def paren (need : Bool) (s : String) : String := if need then "(" ++ s ++ ")" el
 
 /-- precedence level of the outermost form (grammar.y cascade: test=2 … atom=17) -/
 def prec : Expr → Nat
-  | .lambda0 _ => 1
+  | .lambda _ _ _ _ => 1
   | .ifexp _ _ _ => 2
   | .boolop isOr _ _ => if isOr then 3 else 4
   | .unop .not _ => 5
   | .compare _ _ => 6
   | .binop op _ _ => op.prec
   | .unop _ _ => 13
-  | .atom _ _ | .subscript _ _ | .slice2 _ _ _ | .attr _ _ | .call _ _ => 16
+  | .atom _ _ | .subscript _ _ | .slice2 _ _ _ | .attr _ _ | .call _ _ | .callx _ _ _ _ _ => 16
   | .const (.int i) => if i < 0 then 13 else 17
   | _ => 17
 
@@ -78,7 +78,7 @@ partial def src (p : Nat) (e : Expr) : String :=
       (if isOr then " or " else " and ").intercalate (src q a :: rest.toList.map (src q))
   | .compare a rest => src 7 a ++ srcTail rest
   | .ifexp t b o => src 3 b ++ " if " ++ src 3 t ++ " else " ++ src 2 o
-  | .subscript a i => src 16 a ++ "[" ++ src 0 i ++ "]"
+  | .subscript a i => src 16 a ++ "[" ++ srcIdx i ++ "]"
   | .slice2 a lo hi => src 16 a ++ "[" ++ src 2 lo ++ ":" ++ src 2 hi ++ "]"
   | .attr a n => (if isNum a then "(" ++ src 0 a ++ ")" else src 16 a) ++ "." ++ n   -- `1.p` would lex as a float
   | .call f args => src 16 f ++ "(" ++ ", ".intercalate (args.toList.map (src 2)) ++ ")"
@@ -88,7 +88,43 @@ partial def src (p : Nat) (e : Expr) : String :=
   | .list es => "[" ++ ", ".intercalate (es.toList.map (src 2)) ++ "]"
   | .set es => "{" ++ ", ".intercalate (es.toList.map (src 2)) ++ "}"
   | .dict kvs => "{" ++ ", ".intercalate (srcKVs kvs) ++ "}"
-  | .lambda0 b => "lambda: " ++ src 2 b
+  | .lambda sg ds kds b =>
+      let ps := srcParams sg ds kds
+      (if ps == "" then "lambda: " else "lambda " ++ ps ++ ": ") ++ src 2 b
+  | .slice3 lo hi st => "<slice " ++ srcIdx (.slice3 lo hi st) ++ ">"      -- only valid as a subscript index
+  | .callx f args kws star dstar =>
+      let pos := args.toList.map (src 2)
+      let kw := kws.toList.map fun (n, e) => n ++ "=" ++ src 2 e
+      let st := match star with | .some e => ["*" ++ src 2 e] | .none => []
+      let ds := match dstar with | .some e => ["**" ++ src 2 e] | .none => []
+      -- Python 3.4 allows `*s` before the keyword arguments; evaluation order is unchanged
+      let mid := if kws.length % 2 == 1 then st ++ kw else kw ++ st
+      src 16 f ++ "(" ++ ", ".intercalate (pos ++ mid ++ ds) ++ ")"
+/-- a subscript index: a 3-bound slice is written `lo:hi:st`, an omitted bound is `None` -/
+partial def srcIdx : Expr → String
+  | .slice3 lo hi st =>
+      let b (e : Expr) : String := match e with | .const .none => "" | e => src 2 e
+      b lo ++ ":" ++ b hi ++ ":" ++ src 2 st
+  | i => src 0 i
+/-- parameter list with defaults: the defaults belong to the LAST positional parameters -/
+partial def srcParams (sg : Sig) (ds : Exprs) (kds : KWs) : String :=
+  let dl := ds.toList
+  let np := sg.pos.length
+  let pos := (List.range np).zip sg.pos |>.map fun (i, n) =>
+    if i + dl.length ≥ np then
+      match dl[i + dl.length - np]? with
+      | some e => n ++ "=" ++ src 2 e
+      | none => n
+    else n
+  let star := match sg.vararg with
+    | some n => ["*" ++ n]
+    | none => if sg.kwonly.isEmpty then [] else ["*"]
+  let kwo := sg.kwonly.map fun n =>
+    match kds.toList.lookup n with
+    | some e => n ++ "=" ++ src 2 e
+    | none => n
+  let kw := match sg.kwarg with | some n => ["**" ++ n] | none => []
+  ", ".intercalate (pos ++ star ++ kwo ++ kw)
 partial def srcTail : CmpTail → String
   | .one op e => " " ++ op.sym ++ " " ++ src 7 e
   | .more op e rest => " " ++ op.sym ++ " " ++ src 7 e ++ srcTail rest
@@ -100,14 +136,30 @@ end
 mutual
 partial def srcT : Target → String
   | .name n => n
-  | .subscr a i => src 16 a ++ "[" ++ src 0 i ++ "]"
+  | .subscr a i => src 16 a ++ "[" ++ srcIdx i ++ "]"
   | .attr a n => (if isNum a then "(" ++ src 0 a ++ ")" else src 16 a) ++ "." ++ n
   | .tuple ts => match srcTs ts with
+    | [t] => "(" ++ t ++ ",)"
+    | l => "(" ++ ", ".intercalate l ++ ")"
+  | .star b t a => match srcTs b ++ ["*" ++ srcT t] ++ srcTs a with
     | [t] => "(" ++ t ++ ",)"
     | l => "(" ++ ", ".intercalate l ++ ")"
 partial def srcTs : Targets → List String
   | .nil => []
   | .cons t ts => srcT t :: srcTs ts
+end
+
+mutual
+partial def srcD : DelTarget → String
+  | .name n => n
+  | .subscr a i => src 16 a ++ "[" ++ srcIdx i ++ "]"
+  | .attr a n => (if isNum a then "(" ++ src 0 a ++ ")" else src 16 a) ++ "." ++ n
+  | .tuple ts => match srcDs ts with
+    | [t] => "(" ++ t ++ ",)"
+    | l => "(" ++ ", ".intercalate l ++ ")"
+partial def srcDs : DelTargets → List String
+  | .nil => []
+  | .cons t ts => srcD t :: srcDs ts
 end
 
 def Targets.toList : Targets → List Target
@@ -119,20 +171,31 @@ def srcS : Stmt → String
   | .aug t op v =>
       let ts := match t with
         | .name n => n
-        | .subscr a i => src 16 a ++ "[" ++ src 0 i ++ "]"
+        | .subscr a i => src 16 a ++ "[" ++ srcIdx i ++ "]"
         | .attr a n => (if isNum a then "(" ++ src 0 a ++ ")" else src 16 a) ++ "." ++ n
       ts ++ " " ++ op.sym ++ "= " ++ src 2 v
   | .expr e => src 2 e
+  | .del ts => "del " ++ ", ".intercalate (srcDs ts)
+  | .funcdef name sg ds kds body => "def " ++ name ++ "(" ++ srcParams sg ds kds ++ "): return " ++ src 2 body
 
 def srcProg (ss : List Stmt) : String := "\\n".intercalate (ss.map srcS)
 
 /-! ## listing of the model byte code (format of harness/c01.go `c01Dis`) -/
 
-def Instr.show : Instr → String
+def sigShow (sg : Sig) : String :=
+  "[" ++ ",".intercalate sg.pos ++ ";" ++ ",".intercalate sg.kwonly ++ ";"
+    ++ (match sg.vararg with | some n => "*" ++ n | none => "-") ++ ";"
+    ++ (match sg.kwarg with | some n => "**" ++ n | none => "-") ++ "]"
+
+mutual
+partial def Instr.show : Instr → String
   | .LOAD_CONST c => s!"LOAD_CONST({c.src})"
-  | .LOAD_CODE _ => "LOAD_CONST(<code>)"
+  | .LOAD_CODE name sg body => "LOAD_CONST(<code " ++ sigShow sg ++ ": " ++ listing (compBody name sg body) ++ ">)"
   | .LOAD_NAME n => s!"LOAD_NAME({n})"
   | .STORE_NAME n => s!"STORE_NAME({n})"
+  | .DELETE_NAME n => s!"DELETE_NAME({n})"
+  | .LOAD_FAST n => s!"LOAD_FAST({n})"
+  | .LOAD_GLOBAL n => s!"LOAD_GLOBAL({n})"
   | .BINARY op => "BINARY_" ++ op.opname
   | .INPLACE op => "INPLACE_" ++ op.opname
   | .UNARY op => op.opname
@@ -143,17 +206,23 @@ def Instr.show : Instr → String
   | .JUMP_FORWARD t => s!"JUMP_FORWARD({t})"
   | .POP_TOP => "POP_TOP" | .DUP_TOP => "DUP_TOP" | .DUP_TOP_TWO => "DUP_TOP_TWO"
   | .ROT_TWO => "ROT_TWO" | .ROT_THREE => "ROT_THREE"
-  | .BINARY_SUBSCR => "BINARY_SUBSCR" | .STORE_SUBSCR => "STORE_SUBSCR"
+  | .BINARY_SUBSCR => "BINARY_SUBSCR" | .STORE_SUBSCR => "STORE_SUBSCR" | .DELETE_SUBSCR => "DELETE_SUBSCR"
   | .LOAD_ATTR n => s!"LOAD_ATTR({n})" | .STORE_ATTR n => s!"STORE_ATTR({n})"
+  | .DELETE_ATTR n => s!"DELETE_ATTR({n})"
   | .CALL_FUNCTION n => s!"CALL_FUNCTION({n})"
+  | .CALL_FUNCTION_EX na nk st ds =>
+      (match st, ds with
+        | false, false => "CALL_FUNCTION" | true, false => "CALL_FUNCTION_VAR"
+        | false, true => "CALL_FUNCTION_KW" | true, true => "CALL_FUNCTION_VAR_KW") ++ s!"({na + 256 * nk})"
   | .BUILD_TUPLE n => s!"BUILD_TUPLE({n})" | .BUILD_LIST n => s!"BUILD_LIST({n})"
   | .BUILD_SET n => s!"BUILD_SET({n})" | .BUILD_SLICE n => s!"BUILD_SLICE({n})"
   | .BUILD_MAP n => s!"BUILD_MAP({n})" | .STORE_MAP => "STORE_MAP"
-  | .MAKE_FUNCTION n => s!"MAKE_FUNCTION({n})"
+  | .MAKE_FUNCTION np nk => s!"MAKE_FUNCTION({np + 256 * nk})"
   | .UNPACK_SEQUENCE n => s!"UNPACK_SEQUENCE({n})"
+  | .UNPACK_EX b a => s!"UNPACK_EX({b + 256 * a})"
   | .RETURN_VALUE => "RETURN_VALUE"
-
-def listing (code : List Instr) : String := " ".intercalate (code.map Instr.show)
+partial def listing (code : List Instr) : String := " ".intercalate (code.map Instr.show)
+end
 
 /-! ## one case -/
 
@@ -186,7 +255,9 @@ def atomsE : Expr → Nat
   | .call f a => atomsE f + atomsEs a
   | .tuple es | .list es | .set es => atomsEs es
   | .dict kvs => atomsKVs kvs
-  | .lambda0 b => atomsE b
+  | .lambda _ ds kds b => atomsEs ds + atomsKWs kds + atomsE b
+  | .slice3 l h st => atomsE l + atomsE h + atomsE st
+  | .callx f a k st ds => atomsE f + atomsEs a + atomsKWs k + atomsOpt st + atomsOpt ds
 def atomsEs : Exprs → Nat
   | .nil => 0
   | .cons e es => atomsE e + atomsEs es
@@ -196,6 +267,12 @@ def atomsTail : CmpTail → Nat
 def atomsKVs : KVs → Nat
   | .nil => 0
   | .cons k v r => atomsE k + atomsE v + atomsKVs r
+def atomsKWs : KWs → Nat
+  | .nil => 0
+  | .cons _ e r => atomsE e + atomsKWs r
+def atomsOpt : OptE → Nat
+  | .none => 0
+  | .some e => atomsE e
 end
 
 def countLog (v : String) : Nat :=
@@ -212,7 +289,9 @@ def mkCase (family : String) (ss : List Stmt) (bad : Nat) : Case :=
   let mode := if unspecified then "C" else "R"
   let input := s!"{family} {mode} {bad} {srcProg ss}"
   let nev := countLog sv
-  let tags := (if nev ≥ 2 then ["nt"] else []) ++ (if !unspecified && mv != sv then ["kf=C01-K01"] else [])
+  -- the known finding C01-K01 (dict display with a non-str key) shows as KeyError on the model side only;
+  -- any OTHER difference between model and reference is left untagged and surfaces as a VIOLATION
+  let tags := (if nev ≥ 2 then ["nt"] else []) ++ (if !unspecified && mv != sv && mv.endsWith "X:KeyError" then ["kf=C01-K01"] else [])
     ++ (if unspecified then ["unspec"] else [])
     ++ (if !unspecified && sv.endsWith "X:-" == false then ["exc"] else [])
   if unspecified then
@@ -247,7 +326,15 @@ partial def numE (st : Num) : Expr → Expr × Num
   | .list es => let (es, st) := numEs st es; (.list es, st)
   | .set es => let (es, st) := numEs st es; (.set es, st)
   | .dict kvs => let (kvs, st) := numKVs st kvs; (.dict kvs, st)
-  | .lambda0 b => let (b, st) := numE st b; (.lambda0 b, st)
+  | .lambda sg ds kds b =>
+      let (ds, st) := numEs st ds; let (kds, st) := numKWs st kds; let (b, st) := numE st b
+      (.lambda sg ds kds b, st)
+  | .slice3 l h s3 =>
+      let (l, st) := numE st l; let (h, st) := numE st h; let (s3, st) := numE st s3; (.slice3 l h s3, st)
+  | .callx f a k sa da =>
+      let (f, st) := numE st f; let (a, st) := numEs st a; let (k, st) := numKWs st k
+      let (sa, st) := numOpt st sa; let (da, st) := numOpt st da
+      (.callx f a k sa da, st)
   | e => (e, st)
 partial def numEs (st : Num) : Exprs → Exprs × Num
   | .nil => (.nil, st)
@@ -259,6 +346,12 @@ partial def numKVs (st : Num) : KVs → KVs × Num
   | .nil => (.nil, st)
   | .cons k v r =>
       let (k, st) := numE st k; let (v, st) := numE st v; let (r, st) := numKVs st r; (.cons k v r, st)
+partial def numKWs (st : Num) : KWs → KWs × Num
+  | .nil => (.nil, st)
+  | .cons n e r => let (e, st) := numE st e; let (r, st) := numKWs st r; (.cons n e r, st)
+partial def numOpt (st : Num) : OptE → OptE × Num
+  | .none => (.none, st)
+  | .some e => let (e, st) := numE st e; (.some e, st)
 end
 
 mutual
@@ -266,10 +359,23 @@ partial def numT (st : Num) : Target → Target × Num
   | .subscr a i => let (a, st) := numE st a; let (i, st) := numE st i; (.subscr a i, st)
   | .attr a n => let (a, st) := numE st a; (.attr a n, st)
   | .tuple ts => let (ts, st) := numTs st ts; (.tuple ts, st)
+  | .star b t a =>
+      let (b, st) := numTs st b; let (t, st) := numT st t; let (a, st) := numTs st a; (.star b t a, st)
   | t => (t, st)
 partial def numTs (st : Num) : Targets → Targets × Num
   | .nil => (.nil, st)
   | .cons t ts => let (t, st) := numT st t; let (ts, st) := numTs st ts; (.cons t ts, st)
+end
+
+mutual
+partial def numD (st : Num) : DelTarget → DelTarget × Num
+  | .subscr a i => let (a, st) := numE st a; let (i, st) := numE st i; (.subscr a i, st)
+  | .attr a n => let (a, st) := numE st a; (.attr a n, st)
+  | .tuple ts => let (ts, st) := numDs st ts; (.tuple ts, st)
+  | t => (t, st)
+partial def numDs (st : Num) : DelTargets → DelTargets × Num
+  | .nil => (.nil, st)
+  | .cons t ts => let (t, st) := numD st t; let (ts, st) := numDs st ts; (.cons t ts, st)
 end
 
 def numS (st : Num) : Stmt → Stmt × Num
@@ -284,6 +390,10 @@ def numS (st : Num) : Stmt → Stmt × Num
       let (v, st) := numE st v
       (.aug t op v, st)
   | .expr e => let (e, st) := numE st e; (.expr e, st)
+  | .del ts => let (ts, st) := numDs st ts; (.del ts, st)
+  | .funcdef name sg ds kds b =>
+      let (ds, st) := numEs st ds; let (kds, st) := numKWs st kds; let (b, st) := numE st b
+      (.funcdef name sg ds kds b, st)
 
 def numProg (pay : Nat → Const) (ss : List Stmt) : List Stmt × Nat :=
   let (out, st) := ss.foldl (fun (acc : List Stmt × Num) s =>
@@ -502,17 +612,181 @@ def genStmts (tier : String) (seed : Nat) : IO Unit := do
     emitAll "Q" [.aug (.name "x") op (.name "y"), .aug (.name "y") op (.name "x"),
                  .expr (.call (.name "f") (es [.name "x", .name "y"]))] seed 0 false
 
+/-! ## second round: function definitions with defaults, general calls, starred targets,
+3-bound slices, `del`, function bodies evaluated when called -/
+
+def kws (l : List (String × Expr)) : KWs := KWs.ofList l
+def tgs (l : List Target) : Targets := Targets.ofList l
+
+def DelTargets.ofList : List DelTarget → DelTargets
+  | [] => .nil
+  | t :: ts => .cons t (DelTargets.ofList ts)
+
+def nm (n : String) : Expr := .name n
+
+/-- signatures with their default expressions (all probes) and a body that returns every parameter -/
+instance : Inhabited Exprs := ⟨.nil⟩
+instance : Inhabited KWs := ⟨.nil⟩
+
+def lamSigs : List (Sig × Exprs × KWs) :=
+  [ ({ pos := ["a"] }, es [A], .nil),
+    ({ pos := ["a"], kwonly := ["k"] }, es [A], kws [("k", A)]),                    -- `lambda a=…, *, k=…`
+    ({ pos := ["a", "b"] }, es [A, A], .nil),
+    ({ pos := ["a", "b"] }, es [A], .nil),
+    ({ kwonly := ["k", "m"] }, .nil, kws [("k", A), ("m", A)]),
+    ({ pos := ["a", "b"], kwonly := ["k", "m"] }, es [A, A], kws [("k", A), ("m", A)]),
+    ({ pos := ["a"], vararg := some "c", kwonly := ["k"] }, es [A], kws [("k", A)]),
+    ({ pos := ["a", "b", "d"], vararg := some "c", kwonly := ["k", "m", "n"], kwarg := some "kw" },
+      es [A, A], kws [("k", A), ("n", A)]),
+    ({ pos := ["a"], kwarg := some "kw" }, es [A], .nil),
+    ({ vararg := some "c", kwonly := ["k"] }, .nil, kws [("k", A)]),
+    ({ pos := ["a", "b"], kwonly := ["k"] }, es [.binop .sub A A, .boolop true A (es [A])],
+      kws [("k", .ifexp A A A)]),
+    ({ pos := ["a"], kwonly := ["k"] }, es [.lambda { pos := ["b"], kwonly := ["m"] } (es [A]) (kws [("m", A)]) (nm "b")],
+      kws [("k", .call (.name "g") (es [A]))]) ]
+
+def bodyOf (sg : Sig) : Expr := .tuple (es (sg.names.map nm))
+
+/-- argument lists to call a function with -/
+def callShapes : List (Exprs × KWs × OptE × OptE) :=
+  [ (.nil, .nil, .none, .none),
+    (es [A], .nil, .none, .none),
+    (es [A, A], .nil, .none, .none),
+    (es [A], kws [("k", A)], .none, .none),
+    (.nil, kws [("k", A), ("a", A)], .none, .none),
+    (es [A, A, A], kws [("m", A)], .none, .none),
+    (es [A], kws [("m", A), ("zz", A)], .none, .none),
+    (es [A], .nil, .some (.tuple (es [A, A])), .none),
+    (.nil, .nil, .some A, .none),
+    (es [A], kws [("k", A)], .some (.list (es [A])), .none),
+    (.nil, .nil, .none, .some (.dict (.cons (.const (.str "k")) A .nil))),
+    (es [A], kws [("m", A)], .none, .some (.dict (.cons (.const (.str "b")) A (.cons (.const (.str "n")) A .nil)))),
+    (es [A], kws [("k", A)], .some (.tuple (es [A])), .some (.dict (.cons (.const (.str "k")) A .nil))),
+    (es [A, A], kws [("m", A), ("k", A)], .some (.tuple (es [A, A])), .some (.dict (.cons (.const (.str "w")) A .nil))),
+    (.nil, .nil, .some (.tuple (es [A])), .some A) ]
+
+def mkCallx (f : Expr) (sh : Exprs × KWs × OptE × OptE) : Expr := .callx f sh.1 sh.2.1 sh.2.2.1 sh.2.2.2
+
+/-- L: lambda / def with positional and keyword-only defaults: created, created inside a larger
+expression, called (body evaluated at call time, after all arguments) -/
+def genLambda (tier : String) (seed : Nat) : IO Unit := do
+  let thorough := tier == "thorough"
+  for (sg, ds, kds) in lamSigs do
+    let lam := Expr.lambda sg ds kds (bodyOf sg)
+    let lamP := Expr.lambda sg ds kds (.tuple (es [A, bodyOf sg]))      -- a probe in the body
+    emitAll "L1" (rAssign lam) seed 2 true
+    emitAll "L1" [.expr lam] seed 0 false
+    emitAll "L1" (rAssign (.tuple (es [A, lam, A]))) seed 1 true
+    emitAll "L1" (rAssign (.binop .add A (.call (.name "g") (es [lamP, A])))) seed 0 true
+    emitAll "L1" (rAssign (.boolop true A (es [lam]))) seed 2 false
+    emitAll "L1" [.funcdef "k" sg ds kds (bodyOf sg)] seed 1 true
+    for sh in callShapes do
+      emitAll "L2" (rAssign (mkCallx lamP sh)) seed (if thorough then 2 else 0) thorough
+      emitAll "L2" [.funcdef "k" sg ds kds (.tuple (es [A, bodyOf sg])), .assign (.name "r") .nil (mkCallx (.name "k") sh)]
+        seed 0 false
+  -- bodies: every depth-1 form, evaluated when called; parameters are locals, other names globals
+  let sg2 : Sig := { pos := ["a", "b"], kwonly := ["k"] }
+  -- (a nested lambda capturing a parameter would need a closure: outside the fragment)
+  for body in (forms1 (nm "a") (nm "b") (nm "k") allBin allCmp allUn).filter (fun b => ((src 0 b).splitOn "lambda").length == 1)
+      ++ forms1 A (nm "a") A [.sub, .pow] [.lt, .in_] [.not] ++ [nm "x", .tuple (es [nm "x", nm "a", A])] do
+    emitAll "L3" (rAssign (.callx (.lambda sg2 (es [A]) (kws [("k", A)]) body) (es [A]) .nil .none .none)) seed 1 false
+    emitAll "L3" (rAssign (.call (.lambda0 body) .nil)) seed 0 false
+  -- the function object is made once, its defaults are evaluated once, the body at every call
+  for (sg, ds, kds) in lamSigs.take 4 do
+    emitAll "L4" [.assign (.name "u") .nil (.lambda sg ds kds (.tuple (es [A, bodyOf sg]))),
+                  .assign (.name "r") .nil (.tuple (es [.call (nm "u") (es [A]), .call (nm "u") (es [A])]))] seed 1 true
+
+/-- K: calls with keyword, `*` and `**` arguments to the logging functions of the prelude -/
+def genCalls (tier : String) (seed : Nat) : IO Unit := do
+  let thorough := tier == "thorough"
+  let fs : List Expr := [nm "h", nm "f", nm "ev", nm "c1", A, .attr (nm "o1") "p"]
+  let stars : List OptE := [.none, .some (.tuple (es [A, A])), .some A, .some (.list .nil), .some (.call (nm "g") (es [A]))]
+  let dstars : List OptE := [.none, .some (.dict (.cons (.const (.str "w")) A .nil)), .some A, .some (.dict .nil),
+    .some (.dict (.cons (.const (.str "q")) A (.cons (.const (.str "w")) A .nil)))]
+  let poss : List Exprs := [.nil, es [A], es [A, .binop .sub A A]]
+  let kwss : List KWs := [.nil, kws [("q", A)], kws [("q", A), ("p", .ifexp A A A)], kws [("i", A), ("v", A)]]
+  for f in fs do
+    for a in poss do
+      for k in kwss do
+        for st in stars do
+          for ds in dstars do
+            if (k.length > 0 || st.isSome || ds.isSome) && (thorough || f matches .name "h" || (a.length + k.length + (if st.isSome then 1 else 0) + (if ds.isSome then 1 else 0)) ≤ 3) then
+              emitAll "K1" (rAssign (.callx f a k st ds)) seed (if thorough then 1 else 0) (f matches .name "h")
+  -- inside larger expressions: the call's own operands stay between their neighbours
+  for sh in callShapes do
+    emitAll "K2" (rAssign (.binop .sub A (.binop .mul (mkCallx (nm "h") sh) A))) seed 0 false
+    emitAll "K2" (rAssign (.tuple (es [A, .subscript (mkCallx (nm "h") sh) A, A]))) seed 0 false
+    emitAll "K2" [.assign (.subscr (nm "c1") (mkCallx (nm "h") sh)) .nil A] seed 0 false
+    emitAll "K2" [.aug (.subscr (nm "c1") A) .add (mkCallx (nm "h") sh)] seed 0 false
+
+/-- U: starred assignment targets (UNPACK_EX) -/
+def genStar (_tier : String) (seed : Nat) : IO Unit := do
+  let stars : List Target :=
+    [.star (tgs [.name "x"]) (.name "y") (tgs [.name "u"]),
+     .star .nil (.name "y") .nil,
+     .star .nil (.name "x") (tgs [.name "y"]),
+     .star (tgs [.name "x", .name "y"]) (.name "u") .nil,
+     .star (tgs [.subscr (nm "c1") A]) (.attr (nm "o1") "p") (tgs [.subscr A A]),
+     .star (tgs [.name "x"]) (.subscr (nm "c2") A) (tgs [.name "u", .attr A "p"]),
+     .star (tgs [.tuple (tgs [.name "x", .name "y"])]) (.name "u") (tgs [.star .nil (.name "v") (tgs [.subscr (nm "c1") A])]),
+     .tuple (tgs [.name "x", .star (tgs [.subscr (nm "c1") A]) (.name "y") .nil])]
+  let vals : List Expr :=
+    [.tuple (es [A, A, A]), .tuple (es [A, A, A, A, A]), .list (es [A, A]), .tuple (es [A]), .tuple .nil,
+     A, .const (.str "abcd"), .call (nm "f") (es [A, A]),
+     .tuple (es [.tuple (es [A, A]), A, .tuple (es [A, A, A])]), .tuple (es [A, .tuple (es [A, A, A])])]
+  for t in stars do
+    for v in vals do
+      emitAll "U1" [.assign t .nil v] seed 1 true
+      emitAll "U1" [.assign (.name "r") (tgs [t, .subscr (nm "c2") A]) v] seed 0 false
+
+/-- X: 3-bound slices in load, store, augmented and del context -/
+def genSlice3 (_tier : String) (seed : Nat) : IO Unit := do
+  let none_ : Expr := .const .none
+  let sls : List Expr :=
+    [.slice3 A A A, .slice3 none_ A A, .slice3 A none_ A, .slice3 none_ none_ A, .slice3 A A none_,
+     .slice3 (.binop .sub A A) (.boolop true A (es [A])) (.unop .usub A)]
+  let bases : List Expr := [nm "c1", A, .tuple (es [A, A, A, A, A]), .const (.str "abcdefg"), .list (es [A, A, A, A])]
+  for sl in sls do
+    for b in bases do
+      emitAll "X1" (rAssign (.subscript b sl)) seed 3 true
+    emitAll "X1" [.assign (.subscr (nm "c1") sl) .nil A] seed 1 true
+    emitAll "X1" [.assign (.subscr A sl) (tgs [.name "x"]) A] seed 1 false
+    emitAll "X1" [.aug (.subscr (nm "c2") sl) .add A] seed 1 true
+    emitAll "X1" [.del (.ofList [.subscr (nm "c1") sl])] seed 1 true
+  -- payloads chosen so that the builtin slicing itself is exercised (steps -2..3, bounds in and out of range)
+  for lo in [-7, -2, 0, 1, 3, 9] do
+    for hi in [-7, -1, 0, 2, 5, 9] do
+      for st in [-2, -1, 1, 2, 3, 0] do
+        -- a negative literal is `-<n>` (UNARY_NEGATIVE) in the source, so build it that way
+        let lit (i : Nat) (v : Int) : Expr := if v < 0 then .unop .usub (.atom i (.int (-v))) else .atom i (.int v)
+        let e := Expr.subscript (.const (.str "abcdef")) (.slice3 (lit 1 lo) (lit 2 hi) (lit 3 st))
+        IO.println (mkCase "X2" (rAssign e) 0).line
+
+/-- DL: `del` -/
+def genDel (_tier : String) (seed : Nat) : IO Unit := do
+  let ds : List DelTarget :=
+    [.name "x", .name "nosuch", .subscr (nm "c1") A, .subscr A A, .attr (nm "o1") "p", .attr A "qq",
+     .subscr (.subscript (nm "c2") A) (.binop .add A A), .attr (.call (nm "f") (es [A])) "p",
+     .tuple (.ofList [.name "x", .subscr (nm "c2") A]), .tuple (.ofList [.tuple (.ofList [.attr (nm "o2") "p"]), .name "y"])]
+  for d in ds do
+    emitAll "DL" [.del (.ofList [d])] seed 1 true
+    for d2 in ds do
+      emitAll "DL" [.del (.ofList [d, d2])] seed 0 false
+      emitAll "DL" [.del (.ofList [d]), .assign (.name "r") .nil (.tuple (es [A, nm "y"])), .del (.ofList [d2])] seed 0 false
+
 /-! ## seeded random deeper trees -/
 
-partial def randE (r : Rng) (depth : Nat) : Rng × Expr :=
+/-- `ext = false`: the forms of the first round (the R family is unchanged);
+`ext = true` (R2): also function definitions with defaults, general calls, 3-bound slices -/
+partial def randE (r : Rng) (depth : Nat) (ext : Bool := false) : Rng × Expr :=
   if depth == 0 then
     let (r, k) := r.nat 12
     (r, match k with
       | 0 => .name "x" | 1 => .name "c1" | 2 => .name "o1" | 3 => .const (.int 4) | 4 => .const (.str "ab")
       | 5 => .const .none | _ => A)
   else
-    let (r, k) := r.nat 22
-    let sub (r : Rng) := randE r (depth - 1)
+    let (r, k) := r.nat (if ext then 32 else 22)
+    let sub (r : Rng) := randE r (depth - 1) ext
     match k with
     | 0 | 1 | 2 =>
       let (r, op) := r.pick allBin.toArray
@@ -543,21 +817,49 @@ partial def randE (r : Rng) (depth : Nat) : Rng × Expr :=
     | 19 => let (r, a) := sub r; let (r, b) := sub r; let (r, c) := sub r; let (r, d) := sub r
             (r, .dict (.cons a b (.cons c d .nil)))
     | 20 => let (r, a) := sub r; (r, .lambda0 a)
-    | _ => sub r
+    | 21 => sub r
+    | 22 | 23 | 24 =>
+      -- a function definition: signature from `lamSigs`, defaults replaced by random trees
+      let (r, (sg, ds, kds)) := r.pick lamSigs.toArray
+      let (r, d1) := sub r; let (r, d2) := sub r; let (r, d3) := sub r; let (r, d4) := sub r
+      let (r, body) := sub r
+      let ds' := es ([d1, d2].take ds.length)
+      let kds' := kws ((kds.toList.map (·.1)).zip [d3, d4])
+      (r, .lambda sg ds' kds' (.tuple (es [body, bodyOf sg])))
+    | 25 | 26 | 27 | 28 =>
+      let (r, fk) := r.nat 5
+      let (r, g) := sub r
+      let (r, na) := r.nat 3; let (r, nk) := r.nat 3; let (r, hs) := r.nat 3; let (r, hd) := r.nat 3
+      let (r, a1) := sub r; let (r, a2) := sub r; let (r, k1) := sub r; let (r, k2) := sub r
+      let (r, sa) := sub r; let (r, da) := sub r
+      let (r, kn) := r.pick #["k", "q", "a", "m"]
+      let f := match fk with | 0 => nm "f" | 1 | 2 => nm "h" | _ => g
+      (r, .callx f (es ([a1, a2].take na)) (kws ([(kn, k1), ("w", k2)].take nk))
+            (match hs with | 0 => .some (.tuple (es [sa])) | 1 => .some sa | _ => .none)
+            (match hd with | 0 => .some (.dict (.cons (.const (.str "z")) da .nil)) | 1 => .some da | _ => .none))
+    | _ =>
+      let (r, a) := sub r; let (r, l) := sub r; let (r, h) := sub r; let (r, st) := sub r
+      (r, .subscript a (.slice3 l h st))
 
 instance : Inhabited Target := ⟨.name "x"⟩
+instance : Inhabited DelTarget := ⟨.name "x"⟩
 instance : Inhabited Stmt := ⟨.expr (.const .none)⟩
 
-partial def randT (r : Rng) (depth : Nat) : Rng × Target :=
-  let (r, k) := r.nat (if depth == 0 then 4 else 6)
+partial def randT (r : Rng) (depth : Nat) (ext : Bool := false) : Rng × Target :=
+  let (r, k) := r.nat (if depth == 0 then 4 else if ext then 9 else 6)
   match k with
   | 0 => let (r, n) := r.pick #["x", "y", "u", "v", "r"]; (r, .name n)
   | 1 | 2 => let (r, a) := randE r 1; let (r, i) := randE r 1; (r, .subscr a i)
   | 3 => let (r, a) := randE r 1; (r, .attr a "p")
-  | _ =>
-    let (r, t1) := randT r (depth - 1); let (r, t2) := randT r (depth - 1)
+  | 4 | 5 =>
+    let (r, t1) := randT r (depth - 1) ext; let (r, t2) := randT r (depth - 1) ext
     let (r, n) := r.nat 2
     (r, .tuple (if n == 0 then .cons t1 (.cons t2 .nil) else .cons t1 (.cons t2 (.cons (.name "v") .nil))))
+  | _ =>
+    let (r, t1) := randT r (depth - 1) ext; let (r, t2) := randT r (depth - 1) ext
+    let (r, t3) := randT r (depth - 1) ext
+    let (r, nb) := r.nat 2; let (r, na) := r.nat 2
+    (r, .star (tgs ([t1].take nb)) t2 (tgs ([t3].take na)))
 
 partial def randS (r : Rng) (depth : Nat) : Rng × Stmt :=
   let (r, k) := r.nat 5
@@ -574,6 +876,58 @@ partial def randS (r : Rng) (depth : Nat) : Rng × Stmt :=
     let (r, v) := randE r depth
     (r, .aug (match tk with | 0 => .name "x" | 1 => .subscr a i | _ => .attr a "p") op v)
   | _ => let (r, e) := randE r depth; (r, .expr e)
+
+partial def randD (r : Rng) (depth : Nat) : Rng × DelTarget :=
+  let (r, k) := r.nat (if depth == 0 then 4 else 5)
+  match k with
+  | 0 => let (r, n) := r.pick #["x", "y", "u", "nosuch"]; (r, .name n)
+  | 1 | 2 => let (r, a) := randE r 1 true; let (r, i) := randE r 1 true; (r, .subscr a i)
+  | 3 => let (r, a) := randE r 1 true; (r, .attr a "p")
+  | _ => let (r, t1) := randD r (depth - 1); let (r, t2) := randD r (depth - 1)
+         (r, .tuple (.ofList [t1, t2]))
+
+/-- statements of the second round -/
+partial def randS2 (r : Rng) (depth : Nat) : Rng × Stmt :=
+  let (r, k) := r.nat 8
+  match k with
+  | 0 | 1 | 2 =>
+    let (r, n) := r.nat 2
+    let (r, t1) := randT r 2 true; let (r, t2) := randT r 1 true
+    let (r, v) := randE r depth true
+    (r, .assign t1 (Targets.ofList ([t2].take n)) v)
+  | 3 =>
+    let (r, op) := r.pick allBin.toArray
+    let (r, a) := randE r 1 true; let (r, l) := randE r 1 true; let (r, h) := randE r 1 true
+    let (r, st) := randE r 1 true; let (r, v) := randE r depth true
+    (r, .aug (.subscr a (.slice3 l h st)) op v)
+  | 4 => let (r, d1) := randD r 1; let (r, d2) := randD r 1; let (r, n) := r.nat 2
+         (r, .del (.ofList ([d1, d2].take (n + 1))))
+  | 5 =>
+    let (r, (sg, ds, kds)) := r.pick lamSigs.toArray
+    let (r, d1) := randE r 2 true; let (r, d2) := randE r 2 true; let (r, d3) := randE r 2 true
+    let (r, d4) := randE r 2 true; let (r, body) := randE r depth true
+    (r, .funcdef "k" sg (es ([d1, d2].take ds.length)) (kws ((kds.toList.map (·.1)).zip [d3, d4]))
+          (.tuple (es [body, bodyOf sg])))
+  | _ => let (r, e) := randE r depth true; (r, .expr e)
+
+def genRandom2 (tier : String) (seed : Nat) : IO Unit := do
+  let mut r : Rng := ⟨(seed * 2862933555777941757 + 3037000493).toUInt64⟩
+  let n := if tier == "thorough" then 60000 else 4000
+  for i in [0:n] do
+    let (r1, d) := r.nat 2
+    let (r2, k) := r1.nat 3
+    let (r3, s1) := randS2 r2 (2 + d)
+    let (r4, s2) := randS2 r3 2
+    let (r5, mix) := r4.nat 4
+    let (r6, b) := r5.nat 8
+    r := r6
+    let ss := if k == 0 then [s1, s2] else [s1]
+    let (_, na) := numProg payPrimes ss
+    let pay := if mix == 0 then payPrimes else payMix (seed + i)
+    -- a bare string as the first statement is the module docstring (STORE_NAME __doc__): not in the fragment
+    let isDoc := match ss with | (.expr (.const (.str _))) :: _ => true | _ => false
+    if !isDoc then
+      emit "R2" ss pay (if b < 2 && na > 0 then 1 + (i % na) else 0)
 
 def genRandom (tier : String) (seed : Nat) : IO Unit := do
   let mut r : Rng := ⟨(seed * 6364136223846793005 + 1442695040888963407).toUInt64⟩
@@ -596,5 +950,11 @@ def genMain (tier : String) (seed : Nat) : IO Unit := do
   genPrec tier seed
   genStmts tier seed
   genRandom tier seed
+  genLambda tier seed
+  genCalls tier seed
+  genStar tier seed
+  genSlice3 tier seed
+  genDel tier seed
+  genRandom2 tier seed
 
 end GPy.C01
